@@ -144,6 +144,7 @@ pub fn eval(case: &str) -> Out {
         "tp" | "tr" if w.len() == 4 => eval_text(w[1], w[2], w[3]),
         "sd" if w.len() == 6 => eval_serde(w[2], w[5]),
         "lj" if w.len() == 4 => eval_locktime_json(w[2], w[3]),
+        "lc" if w.len() == 4 => eval_locktime_ctor(w[2], w[3]),
         "dm" if w.len() == 3 => eval_probe(w[2]),
         "ps" if w.len() == 7 => eval_pset_serde(w[6]),
         _ => Out::ok("harnesserr kind".into()),
@@ -379,6 +380,33 @@ fn gen_pset_serde(rng: &mut ChaCha20Rng, n: usize, thorough: bool, out: &mut Vec
         ps(&p, tags, out);
     }
 }
+/// `C20 lc <constructor> <n>`: a LockTime built through one of its constructors, then Display -> FromStr.  FromStr goes through from_consensus only, so the
+/// other constructors (from_height / from_time / the enum variants over Height::from_consensus and Time::from_consensus) must agree with it on which side of
+/// the threshold a value lies.
+fn eval_locktime_ctor(ctor: &str, n: &str) -> Out {
+    let show = |v: &LockTime| match v { LockTime::Blocks(h) => format!("B{}", h.to_consensus_u32()), LockTime::Seconds(t) => format!("S{}", t.to_consensus_u32()) };
+    let n: u32 = match n.parse() { Ok(n) => n, Err(_) => return Out::ok("harnesserr value".into()) };
+    let l: Option<LockTime> = match ctor {
+        "from_consensus" => Some(LockTime::from_consensus(n)),
+        "from_height" => LockTime::from_height(n).ok(),
+        "from_time" => LockTime::from_time(n).ok(),
+        "Blocks" => Height::from_consensus(n).ok().map(LockTime::Blocks),
+        "Seconds" => Time::from_consensus(n).ok().map(LockTime::Seconds),
+        "From<Height>" => Height::from_consensus(n).ok().map(LockTime::from),
+        "From<Time>" => Time::from_consensus(n).ok().map(LockTime::from),
+        _ => return Out::ok("harnesserr ctor".into()),
+    };
+    match l {
+        None => Out::ok("none".into()),
+        Some(l) => {
+            let s = l.to_string();
+            let (line, back) = parse_line::<LockTime>(&s, &show, &|e| chain_class(e).unwrap_or_else(|| "int-other".into()));
+            let pred_fail = match back { Some(b) if b == l => None,
+                _ => Some(format!("text-roundtrip|LockTime built by {}({}) = {} prints as {:?}, which does not parse back to it", ctor, n, show(&l), s)) };
+            Out { result: format!("ok {} {} {}", show(&l), hex(s.as_bytes()), line), pred_fail }
+        }
+    }
+}
 /// `C20 lj <Variant> <n>`: a LockTime obtained from the JSON {"<Variant>": n} (the derived Deserialize), then Display -> FromStr
 fn eval_locktime_json(variant: &str, n: &str) -> Out {
     let show = |v: &LockTime| match v { LockTime::Blocks(h) => format!("B{}", h.to_consensus_u32()), LockTime::Seconds(t) => format!("S{}", t.to_consensus_u32()) };
@@ -467,6 +495,12 @@ fn gen_serde(rng: &mut ChaCha20Rng, n: usize, thorough: bool, out: &mut Vec<Case
         let sl = boundary_len(rng, false);
         sd("script", None, if sl == 0 { "-".into() } else { hex(&rbytes(rng, sl)) }, vec![], sl != 0, out);
         for ty in HASH_TYPES { if k < 2 || rng.gen_range(0..4) == 0 { let len = if ty == "ScriptHash" { 20 } else { 32 }; sd(&format!("hash:{}", ty), None, hex(&rbytes(rng, len)), vec![], true, out); } }
+    }
+    // LockTime through every constructor at the boundary values
+    for ctor in ["from_consensus", "from_height", "from_time", "Blocks", "Seconds", "From<Height>", "From<Time>"] {
+        for n in [0u32, 1, 499_999_999, 500_000_000, 500_000_001, u32::MAX] {
+            out.push(Case { text: format!("C20 lc {} {}", ctor, n), tags: vec!["text:LockTime".into(), format!("ctor:{}", ctor)], nontrivial: n != 0 });
+        }
     }
     // LockTime values reachable through the derived Deserialize (which does not look at the threshold)
     for (variant, n) in [("Blocks", 0u64), ("Blocks", 499_999_999), ("Blocks", 500_000_000), ("Blocks", 4294967295), ("Blocks", 4294967296), ("Seconds", 0), ("Seconds", 499_999_999),
